@@ -93,6 +93,10 @@ class ChargeQueueing(VehicleState):
         elif not station.membership.grant_access_to_membership(vehicle.membership):
             msg = f"vehicle doesn't have access to station; context: {context}"
             return SimulationStateError(msg), None
+        elif station.state.get(self.charger_id) is None:
+            # the station keeps no queue for a charger type it does not have
+            msg = f"station does not have charger {self.charger_id}; context: {context}"
+            return SimulationStateError(msg), None
         else:
             err1, updated_station = station.enqueue_for_charger(self.charger_id)
             if err1 is not None:
